@@ -25,6 +25,10 @@ structure World where
   curText : List Nat
   nCalls : Nat
   trace : List Event
+  /-- every evaluation of a terminal so far, most recent first: where it started, which terminal, whether it
+      matched, and whether it was inside an odd number of `!` predicates. Nothing in the semantics reads
+      this log; the farthest-failure report of a failed parse is a function of it (C12) -/
+  attempts : List Attempt := []
 deriving Inhabited
 
 /-- result of evaluating an expression at a position in a scope -/
@@ -44,6 +48,8 @@ deriving Inhabited
 structure Ctx where
   rule : Option Rule
   handlers : List (List (String × Expr))
+  /-- inside an odd number of `!` predicates -/
+  neg : Bool := false
 
 def errPrefix (E : Env) (c : Ctx) (pos : Pos) : String :=
   let file := E.opts.filename
@@ -68,6 +74,10 @@ def advance (E : Env) (c : Ctx) (pt : Savepoint) (w : World) : Savepoint × Worl
 def slice (E : Env) (a b : Savepoint) : List Nat := (E.input.drop a.pos.off).take (b.pos.off - a.pos.off)
 
 def atEOF (pt : Savepoint) : Bool := pt.rn = runeError && pt.w = 0
+
+/-- log the evaluation of a terminal that started at `pt` -/
+def note (c : Ctx) (pos : Pos) (want : String) (matched : Bool) (w : World) : World :=
+  { w with attempts := { pos := pos, want := want, matched := matched, neg := c.neg } :: w.attempts }
 
 /-- invoke a code block in the given scope -/
 def call (E : Env) (blk : Nat) (env : List (String × Val)) (pt : Savepoint) (w : World) : BlockResult × World :=
@@ -139,20 +149,21 @@ def evalThrow (c : Ctx) (label : String) : List (List (String × Expr)) → List
 /-- one level of the semantics -/
 def evalStep (loopFuel : Nat) (c : Ctx) (e : Expr) (env : List (String × Val)) (pt : Savepoint) (w : World) : Res :=
   match e with
-  | .lit _ val ic _ =>
+  | .lit _ val ic want =>
     match evalLit E c ic val pt w with
-    | (some pt', w') => .ok (.bytes (slice E pt pt')) pt' env w'
-    | (none, w') => .fail env w'
+    | (some pt', w') => .ok (.bytes (slice E pt pt')) pt' env (note c pt.pos want true w')
+    | (none, w') => .fail env (note c pt.pos want false w')
   | .any _ =>
-    if atEOF pt then .fail env w
-    else let (pt', w') := advance E c pt w; .ok (.bytes (slice E pt pt')) pt' env w'
+    if atEOF pt then .fail env (note c pt.pos "." false w)
+    else let (pt', w') := advance E c pt w; .ok (.bytes (slice E pt pt')) pt' env (note c pt.pos "." true w')
   | .cls _ cd =>
     let isMember :=
       if E.flags.basicLatin && pt.rn < 128 then cd.basicLatin.getD pt.rn false
       else !atEOF pt && RT.classContains E cd pt.rn
     let isMatch := if E.flags.basicLatin && pt.rn < 128 then isMember != cd.inverted
                    else !atEOF pt && (isMember != cd.inverted)
-    if isMatch then let (pt', w') := advance E c pt w; .ok (.bytes (slice E pt pt')) pt' env w' else .fail env w
+    if isMatch then let (pt', w') := advance E c pt w; .ok (.bytes (slice E pt pt')) pt' env (note c pt.pos cd.val true w')
+    else .fail env (note c pt.pos cd.val false w)
   | .seq _ es => evalSeq E rec c w.state es env pt w []
   | .choice _ _ _ es => evalChoice E rec c es env pt w
   | .zeroOrOne _ e1 =>
@@ -171,7 +182,7 @@ def evalStep (loopFuel : Nat) (c : Ctx) (e : Expr) (env : List (String × Val)) 
     | .fail _ w' => .fail env (rollback E w' w.state)
     | r => r
   | .not _ e1 =>
-    match rec c e1 [] pt w with
+    match rec { c with neg := !c.neg } e1 [] pt w with
     | .ok _ _ _ w' => .fail env (rollback E w' w.state)
     | .fail _ w' => .ok .nil pt env (rollback E w' w.state)
     | r => r
